@@ -50,7 +50,8 @@ inductive Blk where
   | malformed     -- RST_STREAM(PROTOCOL_ERROR) from the field loop or the pseudo-header check
   | tooLarge      -- content-length above MaxRequestBodySize: RST_STREAM(ENHANCE_YOUR_CALM)
   | undecodable   -- HPACK error, or a field cut short at END_HEADERS: GOAWAY(COMPRESSION_ERROR)
-  | listTooLong   -- header list above MaxHeaderListSize: GOAWAY(ENHANCE_YOUR_CALM)
+  | listTooLong   -- header list above MaxHeaderListSize, or an unfinished field already longer than any field within
+                  -- it can be (only without END_HEADERS; F68): GOAWAY(ENHANCE_YOUR_CALM)
 deriving Repr, DecidableEq, Inhabited
 
 inductive Fr where
